@@ -6,7 +6,7 @@ from pyvc.engine import Engine
 
 META = _pipeline.meta('C07')
 
-DEDUCTIVE = ['vsg.vhdlFile.extract.utils.get_indexes_of_token_list', 'vsg.vhdlFile.extract.get_tokens_matching.get_tokens_matching', 'vsg.vhdlFile.extract.get_tokens_at_beginning_of_line_matching.get_tokens_at_beginning_of_line_matching', 'vsg.vhdlFile.extract.get_sequence_of_tokens_matching.get_token_indexes', 'vsg.vhdlFile.extract.get_sequence_of_tokens_matching.get_sequence_of_tokens_matching', 'vsg.vhdlFile.extract.tokens.New.extract_tokens', 'vsg.vhdlFile.extract.get_token_and_n_tokens_before_it.get_token_and_n_tokens_before_it', 'vsg.rules.whitespace_before_token.extract_toi', 'vsg.rules.whitespace_before_token.Rule._get_tokens_of_interest', 'vsg.vhdlFile.utils.count_carriage_returns', 'vsg.rules.token_case.token_case._fix_violation', 'vsg.rules.whitespace_between_tokens.Rule._fix_violation', 'vsg.rules.token_indent.token_indent._fix_violation']
+DEDUCTIVE = ['vsg.vhdlFile.extract.utils.get_indexes_of_token_list', 'vsg.vhdlFile.extract.get_tokens_matching.get_tokens_matching', 'vsg.vhdlFile.extract.get_tokens_at_beginning_of_line_matching.get_tokens_at_beginning_of_line_matching', 'vsg.vhdlFile.extract.get_sequence_of_tokens_matching.get_token_indexes', 'vsg.vhdlFile.extract.get_sequence_of_tokens_matching.get_sequence_of_tokens_matching', 'vsg.vhdlFile.extract.tokens.New.extract_tokens', 'vsg.vhdlFile.extract.get_token_and_n_tokens_before_it.get_token_and_n_tokens_before_it', 'vsg.rules.whitespace_before_token.extract_toi', 'vsg.rules.whitespace_before_token.Rule._get_tokens_of_interest', 'vsg.vhdlFile.utils.count_carriage_returns', 'vsg.rules.token_case.token_case._fix_violation', 'vsg.rules.whitespace_between_tokens.Rule._fix_violation', 'vsg.rules.token_indent.token_indent._fix_violation', 'vsg.vhdlFile.extract.utils.get_indexes_of_token_pairs', 'vsg.vhdlFile.extract.utils.filter_indexes_in_unless_regions', 'vsg.vhdlFile.extract.utils.is_index_between_indexes', 'vsg.vhdlFile.extract.get_tokens_at_beginning_of_line_matching_between_tokens_unless_between_tokens.get_tokens_at_beginning_of_line_matching_between_tokens_unless_between_tokens']
 
 
 def run():
